@@ -39,7 +39,8 @@ class Subgrid:
         self.aliasing_returns = []   # returns that hand out this grid's own storage
         good = []
         for e in rets:
-            r = self._inline_local_cells(w, w.expand(e.value))
+            # (outer locals read by an inlined local function are expanded afterwards)
+            r = w.expand(self._inline_local_cells(w, w.expand(e.value)))
             rows = r.args[0] if (isinstance(r, ast.Call) and src(r.func) == 'Grid'
                                  and len(r.args) == 1) else None
             row = self._row(rows.elt) if rows is not None and isinstance(rows, ast.ListComp) \
